@@ -120,6 +120,7 @@ func compileStmts(ctx *blockCtx, body []ast.Stmt) {
 }
 
 func compileStmt(ctx *blockCtx, stmt ast.Stmt) {
+	verifStep()
 	if enableRecover {
 		defer func() {
 			if e := recover(); e != nil {
